@@ -42,6 +42,7 @@ func script(t N) string {
 	} else {
 		sb.WriteString("c := chan()\n")
 	}
+	sb.WriteString("import time\n")
 	sb.WriteString("func sender(s, n) {\nfor i := 1; i <= n; i++ {\nsent(s, i)\nc <- [s, i]\n}\nreturn s\n}\n")
 	switch recv {
 	case "iter":
@@ -95,6 +96,10 @@ func script(t N) string {
 	sb.WriteString("cu := chan()\ntu := spawn(func() {\ncu <- nil\ncu <- 7\nclose(cu)\n})\nlu := []\nfor i, v := range cu {\nlu.append([i, v])\n}\ntu.wait()\nmark(\"nilvalue\", 11, lu)\n")
 	// a spawned call that ends in a recovered Go panic: wait() raises that error, it does not return nil
 	sb.WriteString("func deep(n) {\nreturn deep(n + 1)\n}\ntp := spawn(deep, 0)\nmark(\"waitpanic\", 12, try(func() {\nrp := tp.wait()\nreturn [\"no error\", rp]\n}, func(e) {\nreturn \"raised\"\n}))\n")
+	// goroutines started BY a spawned call outlive it: the producer keeps sending after start() has returned, and
+	// a thread handle returned from a spawned call can still be waited for
+	sb.WriteString("func start() {\nc2 := chan(4)\ngo func() {\nfor i := 0; i < 50; i++ {\nc2 <- i\n}\nclose(c2)\n}()\nreturn c2\n}\ncc := spawn(start).wait()\ntot := 0\nnn := 0\nfor _, v := range cc {\ntot += v\nnn++\n}\nmark(\"nested\", 13, [nn, tot])\n")
+	sb.WriteString("func outerh() {\nreturn spawn(func() {\ntime.sleep(0.02)\nreturn 41 + 1\n})\n}\nhh := spawn(outerh).wait()\nmark(\"nested\", 14, hh.wait())\n")
 	sb.WriteString("\"done\"\n")
 	return sb.String()
 }
